@@ -65,6 +65,7 @@ func checkTwinComparison(c *Ctx, rule3, rule4 string, twin *ssa.Function, kBad i
 	boolFields := map[string][]*E{}
 	all := True
 	var optAtom *E
+	var nilTests []*E
 	for _, at := range u.AtomsOf(H) {
 		c.Atoms[at.key] = true
 		if !(at.Op == "field" && (at.Args[0] == fP || at.Args[0] == rP)) {
@@ -73,6 +74,19 @@ func checkTwinComparison(c *Ctx, rule3, rule4 string, twin *ssa.Function, kBad i
 		key := shortFn(twin) + ": comparison " + clip(u.Show(at), 120)
 		var A, B *E
 		switch {
+		case at.Op == "eq" && (at.Args[0].IsNil() || at.Args[1].IsNil()):
+			// a nil test of a pointer field: a shortcut around the deep comparison of that field
+			// (judged below together with it)
+			x := at.Args[0]
+			if x.IsNil() {
+				x = at.Args[1]
+			}
+			if x.Op == "field" && (x.Args[0] == fP || x.Args[0] == rP) {
+				nilTests = append(nilTests, at)
+				all = u.bdd.Exists(all, u.atomIx[at.key])
+				continue
+			}
+			A, B = at.Args[0], at.Args[1]
 		case at.Op == "eq":
 			A, B = at.Args[0], at.Args[1]
 		case at.Op == "call" && len(at.Args) == 2:
@@ -161,6 +175,44 @@ func checkTwinComparison(c *Ctx, rule3, rule4 string, twin *ssa.Function, kBad i
 		}
 		ax = u.bdd.And(ax, u.bdd.Imp(u.Atom(e), u.Atom(deep)))
 		all = u.bdd.Exists(all, u.atomIx[e.key])
+	}
+	// nil tests: x == nil for the same field of both rules next to the deep comparison of that field
+	for _, nt := range nilTests {
+		x := nt.Args[0]
+		if x.IsNil() {
+			x = nt.Args[1]
+		}
+		other := u.Subst(x, swap)
+		var deep *E
+		for _, d := range u.AtomsOf(H) {
+			if d.Op != "call" || len(d.Args) != 2 || !isValueEquality(d.Aux) {
+				continue
+			}
+			a0, a1 := d.Args[0], d.Args[1]
+			for a0.Op == "mkiface" {
+				a0 = a0.Args[0]
+			}
+			for a1.Op == "mkiface" {
+				a1 = a1.Args[0]
+			}
+			if (a0 == x && a1 == other) || (a0 == other && a1 == x) {
+				deep = d
+			}
+		}
+		if deep == nil {
+			c.Fail(rule3, shortFn(twin)+": comparison "+clip(u.Show(nt), 120), twin.Pos(), "a field of one rule is only tested for nil and never compared with the same field of the other rule")
+			continue
+		}
+		xNil := u.Atom(nt)
+		oNil := u.ToBool(u.Eq(other, u.mk("nil", "", other.Typ)))
+		dp := u.Atom(deep)
+		// both nil => equal; exactly one nil => different
+		ax = u.bdd.And(ax, u.bdd.Imp(u.bdd.And(xNil, oNil), dp))
+		ax = u.bdd.And(ax, u.bdd.Imp(u.bdd.And(xNil, u.bdd.Not(oNil)), u.bdd.Not(dp)))
+		if pe := u.Eq(x, other); pe.Op == "bool" {
+			ax = u.bdd.And(ax, u.bdd.Imp(u.bdd.And(xNil, oNil), pe.B))
+			ax = u.bdd.And(ax, u.bdd.Imp(u.bdd.And(xNil, u.bdd.Not(oNil)), u.bdd.Not(pe.B)))
+		}
 	}
 	for name, ats := range boolFields {
 		if len(ats) == 2 {
